@@ -356,3 +356,26 @@ pub fn with_capacity_budget(n: usize) -> (v: Vec<u8>)
     requires n <= 65536,
     ensures v@ == Seq::<u8>::empty(),
 { Vec::with_capacity(n) }
+
+// ---- castaway::cast! (E17): type specialisation of the containers on the byte element type.
+// ASSUMPTION[castaway]: `cast!(x, &[u8])` on `x: &[T]` is Ok exactly when T is u8 (then the same
+// slice), otherwise Err(x) -- stated through the trait spec fn `is_byte()`, true only in the u8 impl.
+#[verifier::external_body]
+pub fn cast_slice_u8<T: BinarySerializer>(s: &[T]) -> (r: core::result::Result<&[u8], &[T]>)
+    ensures
+        r is Ok <==> T::is_byte(),
+        r is Ok ==> r->Ok_0@ =~= seq_bytes(s@),
+        r is Err ==> r->Err_0@ == s@,
+{
+    unimplemented!()
+}
+
+#[verifier::external_body]
+pub fn cast_array_u8<T: BinarySerializer, const L: usize>(s: &[T; L]) -> (r: core::result::Result<&[u8; L], &[T; L]>)
+    ensures
+        r is Ok <==> T::is_byte(),
+        r is Ok ==> r->Ok_0@ =~= seq_bytes(s@),
+        r is Err ==> r->Err_0@ == s@,
+{
+    unimplemented!()
+}
